@@ -194,6 +194,23 @@ def run_config(chk, ctx, name):
         same = core_fn is not None and len(s2) == 1 and s2[0][0] == core_fn
         chk.ob("E4.signing-key-delegates-to-sign", "%s[%s]" % (core.strip_generics(m), name), same,
                "%s does not run the signing core of the byte-level sign function (%s): the in-memory key could diverge from a reloaded key" % (m, core_fn))
+    # ... and the in-memory key has no state but the key blob: its fields are one byte vector and zero-sized markers, so nothing
+    # can be carried from one signing call to the next except through the bytes a reloaded key would also have
+    sk = A.type_path("SigningKey")
+    from . import zz
+    extra_state = []
+    nbytes = 0
+    for fl in zz.fields_of(F, sk):
+        ts = fl["ty"].get("s", "")
+        if "PhantomData" in ts:
+            continue
+        if "ArrayVec<[u8;" in ts or ts.startswith("[u8;"):
+            nbytes += 1
+            continue
+        extra_state.append("%s: %s" % (fl["name"], ts))
+    chk.ob("E4.signing-key-state-is-the-key-blob", "%s[%s]" % (sk, name), nbytes == 1 and not extra_state,
+           "%s carries state besides the key blob (%s; %d byte fields): a second signing call could depend on the first" % (sk, extra_state, nbytes),
+           where="%s:%s" % (F.adts[sk]["span"]["file"], F.adts[sk]["span"]["line"]))
     # the in-memory key stores the complete successor key the byte-level function hands out
     c04.in_memory_key_rules(chk, F, A, "" if name == "default" else "[%s]" % name, "E4")
     # who constructs `Signature`?
